@@ -140,10 +140,17 @@ class SimCyclicTask(can.broadcastmanager.CyclicSendTaskABC):
     """Periodic sender on the virtual clock (stands in for python-can's
     ThreadBasedCyclicSendTask).  Without modify_data."""
 
+    by_reference = True     # python-can's thread based task re-reads the Message objects on every cycle
+
+    def _snapshot(self):
+        return [(m.arbitration_id, bytes(m.data), bool(m.is_remote_frame), bool(m.is_extended_id)) for m in self.messages]
+
     def __init__(self, bus, messages, period):
         # do not call the ABC constructor's validation more than needed
         self.bus = bus
+        self.by_reference = bus.tasks_by_reference
         self.messages = tuple(messages)
+        self.frozen = self._snapshot()
         self.period = period
         self.period_ns = max(int(round(period * SEC)), 1)
         self.stopped = False
@@ -162,9 +169,8 @@ class SimCyclicTask(can.broadcastmanager.CyclicSendTaskABC):
         if self.stopped:
             return
         ch = self.channel
-        for m in self.messages:
-            fr = ch.transmit(self.bus, m.arbitration_id, bytes(m.data), m.is_remote_frame,
-                             m.is_extended_id, origin="periodic")
+        for (cid, data, rtr, ext) in (self._snapshot() if self.by_reference else self.frozen):
+            fr = ch.transmit(self.bus, cid, data, rtr, ext, origin="periodic")
             fr.origin = ("periodic", self.tid)
         self.emitted += 1
         ch.ctx.at(ch.ctx.now + self.period_ns, self._fire)
@@ -179,8 +185,8 @@ class SimCyclicTask(can.broadcastmanager.CyclicSendTaskABC):
                 pass
 
     def describe(self):
-        m = self.messages[0]
-        return (m.arbitration_id, bytes(m.data), self.period, bool(m.is_remote_frame))
+        cid, data, rtr, ext = (self._snapshot() if self.by_reference else self.frozen)[0]
+        return (cid, data, self.period, rtr)
 
 
 class SimModifiableCyclicTask(SimCyclicTask):
@@ -193,6 +199,7 @@ class SimModifiableCyclicTask(SimCyclicTask):
             if old.arbitration_id != new.arbitration_id:
                 raise ValueError("The arbitration ID of new cyclic messages cannot be changed from when the task was created")
         self.messages = tuple(messages)
+        self.frozen = self._snapshot()
         self.channel.ctx.log("task-modify", self.bus.name, self.tid, bytes(self.messages[0].data))
 
 
@@ -220,6 +227,7 @@ class SimBus(Endpoint, can.BusABC):
         self.network = None
         self.via_notify = False
         self.modifiable_tasks = modifiable_tasks
+        self.tasks_by_reference = True
         self.cancel_on_shutdown = cancel_on_shutdown
         self.rx_queue = None        # Mode T: frames waiting for the receive task
         self.is_down = False
